@@ -30,6 +30,7 @@ type Env struct {
 	pkg     *types.Package
 	errs    []string
 	inOld   int
+	addrVars map[string]tv // names bound to cells (captured variables): dereferenced on use
 }
 
 func (e *Env) fail(format string, args ...interface{}) tv {
@@ -117,34 +118,36 @@ func (e *Env) lookupIdent(name string) (tv, bool) {
 	if v, ok := e.vars[name]; ok {
 		return v, true
 	}
+	if av, ok := e.addrVars[name]; ok {
+		if pt, ok := av.t.(*types.Pointer); ok {
+			if sc, ok := av.v.(Sc); ok {
+				return tv{e.c.loadAt(e.s, sc.T, pt.Elem()), pt.Elem()}, true
+			}
+		}
+	}
 	if e.frame != nil {
 		if v, ok := e.frame.locals[name]; ok {
-			// find its type
-			var t types.Type
-			for _, p := range e.frame.fn.Params {
-				if p.Name() == name {
-					t = p.Type()
-				}
-			}
-			for _, fv := range e.frame.fn.FreeVars {
-				if fv.Name() == name {
-					t = fv.Type()
-				}
-			}
+			// declared type of the variable
+			t := e.c.eng.localType(e.frame.fn, name)
 			if t == nil {
-				t = e.c.eng.localType(e.frame.fn, name)
+				for _, p := range e.frame.fn.Params {
+					if p.Name() == name {
+						t = p.Type()
+					}
+				}
+				for _, fv := range e.frame.fn.FreeVars {
+					if fv.Name() == name {
+						if pt, ok := fv.Type().(*types.Pointer); ok {
+							t = pt.Elem()
+						}
+					}
+				}
 			}
 			if e.frame.localIsAddr[name] {
-				// dereference the cell
 				if t == nil {
 					return tv{}, false
 				}
-				pt, ok := t.(*types.Pointer)
-				if !ok {
-					// local type recorded is the variable's type; address holds it
-					return tv{e.c.loadAt(e.s, v.(Sc).T, t), t}, true
-				}
-				return tv{e.c.loadAt(e.s, v.(Sc).T, pt.Elem()), pt.Elem()}, true
+				return tv{e.c.loadAt(e.s, v.(Sc).T, t), t}, true
 			}
 			return tv{v, t}, true
 		}
@@ -732,6 +735,22 @@ func (e *Env) evalCall(n ECall) tv {
 			return e.fail("typeis: unknown type %q", name)
 		}
 		return tv{Sc{T: Eq(iv.Typ, IntLit(int64(code)))}, boolT}
+	case "as":
+		// as(x, "*pkg.T"): the pointer stored in interface value x (meaningful when typeis(x, T))
+		v := e.eval(n.Args[0])
+		name := n.Args[1].(EStr).V
+		iv, ok := v.v.(If)
+		if !ok {
+			return e.fail("as() on non-interface")
+		}
+		t := c.eng.namedType(strings.TrimPrefix(name, "*"))
+		if t == nil {
+			return e.fail("as(): unknown type %q", name)
+		}
+		if strings.HasPrefix(name, "*") {
+			return tv{Sc{T: iv.Val}, types.NewPointer(t)}
+		}
+		return tv{c.unbox(s, iv.Val, t), t}
 	case "byteat":
 		v := e.eval(n.Args[0])
 		i := e.asInt(e.eval(n.Args[1]))
@@ -780,6 +799,31 @@ func (e *Env) evalCall(n ECall) tv {
 			return e.fail("ipnet_contains: second argument must be a byte slice")
 		}
 		return tv{Sc{T: e.ipnetContains(nip, mask, ip)}, boolT}
+	case "pure":
+		// pure("callee key", args...): the uninterpreted function that models calls of an (assumed) pure callee
+		if len(n.Args) < 1 {
+			return e.fail("pure() needs a callee name")
+		}
+		nameE, ok := n.Args[0].(EStr)
+		if !ok {
+			return e.fail("pure(): first argument must be a string")
+		}
+		fc, ok := c.eng.contracts.funcs[nameE.V]
+		if !ok || !fc.Pure {
+			return e.fail("pure(): %s is not declared pure", nameE.V)
+		}
+		var args []Value
+		var ats []types.Type
+		for _, a := range n.Args[1:] {
+			av := e.eval(a)
+			args = append(args, av.v)
+			ats = append(ats, av.t)
+		}
+		rt, ok := c.eng.resultTypeOf(nameE.V)
+		if !ok {
+			return e.fail("pure(): cannot find the result type of %s", nameE.V)
+		}
+		return tv{c.pureWithEnsures(s, fc, args, ats, rt), rt}
 	case "sameslice":
 		a, b := e.eval(n.Args[0]), e.eval(n.Args[1])
 		x, ok1 := a.v.(Sl)
